@@ -22,6 +22,12 @@ fn operands<F: Flt>(l: &Layout, reals: &[f64], salt: usize) -> Vec<Parts<F>> {
             let present: Vec<bool> = (0..g).map(|i| pat & (1 << i) == 0).collect();
             let vals: Vec<F> = (0..l.nslots()).map(|i| F::from64(if i == 0 { *re } else { part_value(i + salt + k, 1 + (i + k) % 3) })).collect();
             out.push(Parts { vals: vals.clone(), present: present.clone() });
+            // derivative entries that cancel in their sum (1, -1, 2, -2, ...): a test for "all zero"
+            // written as a reduction drops such a part
+            if k == 1 {
+                let cancel: Vec<F> = (0..l.nslots()).map(|i| if i == 0 { vals[0] } else { F::from64(if i % 2 == 1 { (i + 1) as f64 / 2.0 } else { -(i as f64) / 2.0 }) }).collect();
+                out.push(Parts { vals: cancel, present: present.clone() });
+            }
             // the same with every other derivative entry exactly zero (unit-seed like patterns)
             if k == 0 {
                 let sparse: Vec<F> = vals.iter().enumerate().map(|(i, v)| if i > 0 && (i + pat) % 2 == 0 { F::zero() } else { *v }).collect();
